@@ -12,7 +12,8 @@ import sys
 p,old,new=sys.argv[1:4]
 s=open(p).read()
 if s.count(old)<1: print("mutation anchor not found"); sys.exit(1)
-open(p,'w').write(s.replace(old,new,1))
+import os
+open(p,'w').write(s.replace(old,new) if os.environ.get('MUT_ALL') else s.replace(old,new,1))
 PY
 ( cd $SCR && go build ./... ) || { echo "MUTANT $P/$NAME: does not compile"; git -C /repo worktree remove --force $SCR; exit 4; }
 mkdir -p $ALT
